@@ -17,6 +17,8 @@
 //!   sched  "imm" (loader answers immediately) | "all" (every order of releasing pending loads,
 //!          depth-first over the choice tree) | [c0, c1, ...] explicit choice list
 //!   cap    maximum number of schedules explored per behaviour (sched = all)
+//!   reuse  k > 1: up to k consecutive runs of this job share one context (fresh modules and loader
+//!          state each run; a fresh context after a panic); default 1 = fresh context per run
 //!   src    true = also return the generated module sources
 //!
 //! Result: {"r": [<per behaviour>]}; per behaviour for imm / explicit: the compact outcome string
@@ -310,20 +312,35 @@ struct Cfg<'a> {
     hist: Vec<(usize, bool)>, // (module index, drain afterwards)
     pre: bool,
     lle: bool,
+    /// number of consecutive runs that share one context (1 = fresh context per run)
+    reuse: usize,
 }
 
-/// One execution: fresh context, parse, history of evaluations, observations.
+thread_local! {
+    /// a context kept for the next run of the same job (`reuse` > 1): (context, loader, uses left)
+    static POOL: RefCell<Option<(Context, Rc<Ctl>, usize)>> = const { RefCell::new(None) };
+}
+
+/// One execution: fresh (or pooled) context, parse, history of evaluations, observations.
 fn run_once(cfg: &Cfg<'_>, beh: &str, imm: bool, sched: &mut Sched) -> String {
     take_lines();
-    let ctl = Rc::new(Ctl::default());
+    let t0 = std::time::Instant::now();
+    let (mut ctx, ctl, uses_left) = match POOL.with(|p| p.borrow_mut().take()) {
+        Some(t) if cfg.reuse > 1 => t,
+        _ => {
+            let ctl = Rc::new(Ctl::default());
+            let mut ctx = Context::builder()
+                .module_loader(ctl.clone())
+                .build()
+                .expect("context");
+            vcore::apply_limits(&mut ctx, &vcore::Cfg::default());
+            ctx.register_global_builtin_callable(js_string!("print"), 1, NativeFunction::from_fn_ptr(print))
+                .expect("register print");
+            (ctx, ctl, cfg.reuse)
+        }
+    };
     ctl.imm.set(imm);
-    let mut ctx = Context::builder()
-        .module_loader(ctl.clone())
-        .build()
-        .expect("context");
-    vcore::apply_limits(&mut ctx, &vcore::Cfg::default());
-    ctx.register_global_builtin_callable(js_string!("print"), 1, NativeFunction::from_fn_ptr(print))
-        .expect("register print");
+    let t1 = t0.elapsed();
     let behs: Vec<char> = beh.chars().collect();
     for i in 0..cfg.n {
         let src = module_source(NAMES[i], cfg.imp[i], &cfg.kinds[i], behs[i]);
@@ -331,6 +348,7 @@ fn run_once(cfg: &Cfg<'_>, beh: &str, imm: bool, sched: &mut Sched) -> String {
             .unwrap_or_else(|e| panic!("vc17: generated module does not parse: {e}\n{src}"));
         ctl.modules.borrow_mut().push((NAMES[i].to_string(), m));
     }
+    let t2 = t0.elapsed();
     let module = |i: usize| ctl.modules.borrow()[i].1.clone();
     let mut steps: Vec<String> = Vec::new();
     let mut promises: Vec<Option<JsPromise>> = Vec::new();
@@ -397,6 +415,7 @@ fn run_once(cfg: &Cfg<'_>, beh: &str, imm: bool, sched: &mut Sched) -> String {
         };
         steps.push(format!("{}~{}", take_lines().join("|"), st));
     }
+    let t3 = t0.elapsed();
     let fin: Vec<String> = promises
         .iter()
         .map(|p| p.as_ref().map_or_else(|| "-".to_string(), |p| state_of(p, &mut ctx)))
@@ -458,7 +477,18 @@ fn run_once(cfg: &Cfg<'_>, beh: &str, imm: bool, sched: &mut Sched) -> String {
     if !late.is_empty() {
         out += &format!("$LATE:{}", late.join("|"));
     }
-    drop(ctx);
+    let t4 = t0.elapsed();
+    if uses_left > 1 {
+        ctl.modules.borrow_mut().clear();
+        ctl.log.borrow_mut().clear();
+        ctl.slots.borrow_mut().clear();
+        POOL.with(|p| *p.borrow_mut() = Some((ctx, ctl, uses_left - 1)));
+    } else {
+        drop(ctx);
+    }
+    if std::env::var_os("VC17_TIME").is_some() {
+        eprintln!("ctx {:?} parse {:?} hist {:?} obs {:?} drop {:?}", t1, t2 - t1, t3 - t2, t4 - t3, t0.elapsed() - t4);
+    }
     out
 }
 
@@ -503,7 +533,9 @@ fn job_g(job: &Value) -> Value {
         hist,
         pre: job.get("pre").and_then(Value::as_bool).unwrap_or(false),
         lle: job.get("api").and_then(Value::as_str) == Some("lle"),
+        reuse: job.get("reuse").and_then(Value::as_u64).unwrap_or(1) as usize,
     };
+    POOL.with(|p| p.borrow_mut().take());
     let cap = job.get("cap").and_then(Value::as_u64).unwrap_or(100_000) as usize;
     let mut poisoned = false;
     let mut out = Vec::new();
@@ -568,6 +600,7 @@ fn job_g(job: &Value) -> Value {
             }
         }
     }
+    POOL.with(|p| p.borrow_mut().take());
     let mut v = json!({"r": out});
     if job.get("src").and_then(Value::as_bool).unwrap_or(false) {
         let b0: Vec<char> = job["behs"][0].as_str().unwrap_or("pppp").chars().collect();
